@@ -46,8 +46,12 @@ build_coq() {
   lint
   project
   cd $V/coq
-  timeout 3000 make -j$JOBS > $V/build/coq.log 2>&1 || { tail -30 $V/build/coq.log >&2; fail "make (see build/coq.log)"; }
+  # -k: a file that does not build must not hide the others; what the claimed checks need is verified below
+  timeout 3000 make -k -j$JOBS > $V/build/coq.log 2>&1 || echo "WARNING: some Coq files did not build (see build/coq.log)" >&2
   cd $V
+  for pid in $(python3 -c "import json;print(' '.join(c['property_id'] for c in json.load(open('$V/MANIFEST.json'))['checks']))"); do
+    [ -f $V/coq/theories/Properties/$pid.vo ] || { grep -B2 -A12 -m1 "Error" $V/build/coq.log >&2; fail "Properties/$pid.vo was not built"; }
+  done
 }
 
 build_cone() {
